@@ -2,8 +2,8 @@
    Theorem / exact / Print Assumptions only; proofs in Proofs.FingerprintProofs, model in Model.Fingerprint,
    hash model in Model.PyHash. *)
 From Coq Require Import String ZArith List Bool Permutation.
-From Model Require Import PyBase Graph PyHash Fingerprint FingerprintCGR LinearSmiles.
-From Proofs Require Import FingerprintProofs FingerprintCGRProofs MorganNbhd MorganNbhdCGR LinearSmilesProofs LinearSmilesFixed.
+From Model Require Import PyBase Graph PyHash Fingerprint FingerprintCGR LinearSmiles FingerprintVec MorganSmiles.
+From Proofs Require Import FingerprintProofs FingerprintCGRProofs MorganNbhd MorganNbhdCGR LinearSmilesProofs LinearSmilesFixed FingerprintVecProofs MorganSmilesProofs.
 Import ListNotations.
 Open Scope Z_scope.
 
@@ -584,3 +584,151 @@ Theorem C17_example_cgr_nbhd :
   (forall h : list Z -> Z, ident (cgr_morgan_level h ex_cgr 1) 1 = ident (cgr_morgan_level h ex_cgr2 1) 1).
 Proof. exact example_cgr_nbhd. Qed.
 Print Assumptions C17_example_cgr_nbhd.
+
+(* ==================================================================================================== *)
+(* SECOND ROUND (1): the array forms linear_fingerprint / morgan_fingerprint (Model.FingerprintVec: zeros(length) followed
+   by the numpy assignment fingerprints[list(bits)] = 1, which wraps negative positions and raises IndexError outside
+   [-length, length)).  `is_char_vector_of len r v`, spelled out by C17_is_char_vector_of_unfold: r and v fail with the same
+   exception, or r = Ok bits, v = Ok vec and vec has `len` entries, all 0 or 1, entry i is 1 iff i is in bits (0 iff
+   not), vec = char_vector len bits.  In particular IndexError never occurs. *)
+Theorem C17_is_char_vector_of_unfold : forall len r v, is_char_vector_of len r v <->
+  match r, v with
+  | Ok bits, Ok vec =>
+      length vec = Z.to_nat len /\ (forall x, In x vec -> x = 0 \/ x = 1) /\
+      (forall i, 0 <= i < len -> (nth (Z.to_nat i) vec 0 = 1 <-> In i bits) /\ (nth (Z.to_nat i) vec 0 = 0 <-> ~ In i bits)) /\
+      vec = char_vector len bits
+  | Err e, Err e' => e = e'
+  | _, _ => False
+  end.
+Proof. exact (fun len r v => iff_refl _). Qed.
+Print Assumptions C17_is_char_vector_of_unfold.
+
+Theorem C17_linear_fingerprint_spec : forall (h : list Z -> Z) g lo hi len nab nbp,
+  is_char_vector_of len (linear_bit_list h g lo hi len nab nbp) (linear_fingerprint h g lo hi len nab nbp).
+Proof. exact linear_fingerprint_spec. Qed.
+Print Assumptions C17_linear_fingerprint_spec.
+
+Theorem C17_morgan_fingerprint_spec : forall (h : list Z -> Z) g lo hi len nab,
+  is_char_vector_of len (morgan_bit_list h g lo hi len nab) (morgan_fingerprint h g lo hi len nab).
+Proof. exact morgan_fingerprint_spec. Qed.
+Print Assumptions C17_morgan_fingerprint_spec.
+
+Theorem C17_cgr_fingerprint_spec : forall (h : list Z -> Z) c lo hi len nab nbp,
+  is_char_vector_of len (cgr_linear_bit_list h c lo hi len nab nbp) (cgr_linear_fingerprint h c lo hi len nab nbp) /\
+  is_char_vector_of len (cgr_morgan_bit_list h c lo hi len nab) (cgr_morgan_fingerprint h c lo hi len nab).
+Proof. exact (fun h c lo hi len nab nbp => conj (cgr_linear_fingerprint_spec h c lo hi len nab nbp) (cgr_morgan_fingerprint_spec h c lo hi len nab)). Qed.
+Print Assumptions C17_cgr_fingerprint_spec.
+
+(* for ANY hash list: ValueError for length <= 0, otherwise the characteristic vector of the folded bits *)
+Theorem C17_vec_of_bit_list : forall len nab hashes,
+  (len <= 0 -> vec_of len (bit_list len nab hashes) = Err ValueError) /\
+  (0 < len -> exists bits, bit_list len nab hashes = Ok bits /\ vec_of len (bit_list len nab hashes) = Ok (char_vector len bits)).
+Proof. exact vec_of_bit_list. Qed.
+Print Assumptions C17_vec_of_bit_list.
+
+(* the arrays of a renumbered / reordered molecule or CGR are EQUAL *)
+Theorem C17_linear_fingerprint_rename : forall (h : list Z -> Z) (s : Z -> Z) g lo hi len nab nbp,
+  (forall x y, s x = s y -> x = y) -> wf_mol g = true ->
+  linear_fingerprint h (rename_mol s g) lo hi len nab nbp = linear_fingerprint h g lo hi len nab nbp.
+Proof. exact linear_fingerprint_rename. Qed.
+Print Assumptions C17_linear_fingerprint_rename.
+
+Theorem C17_morgan_fingerprint_rename : forall (h : list Z -> Z) (s : Z -> Z) g lo hi len nab,
+  (forall x y, s x = s y -> x = y) ->
+  morgan_fingerprint h (rename_mol s g) lo hi len nab = morgan_fingerprint h g lo hi len nab.
+Proof. exact morgan_fingerprint_rename. Qed.
+Print Assumptions C17_morgan_fingerprint_rename.
+
+Theorem C17_fingerprints_reordered : forall g g', wf_mol g = true -> wf_mol g' = true -> reordered g g' ->
+  forall (h : list Z -> Z) lo hi len nab nbp,
+  linear_fingerprint h g lo hi len nab nbp = linear_fingerprint h g' lo hi len nab nbp /\
+  morgan_fingerprint h g lo hi len nab = morgan_fingerprint h g' lo hi len nab.
+Proof. exact (fun g g' Hw Hw' Hr h lo hi len nab nbp =>
+  conj (linear_fingerprint_reordered g g' Hw Hw' Hr h lo hi len nab nbp) (morgan_fingerprint_reordered g g' Hw Hr h lo hi len nab)). Qed.
+Print Assumptions C17_fingerprints_reordered.
+
+Theorem C17_cgr_fingerprints_rename : forall (h : list Z -> Z) (s : Z -> Z) c lo hi len nab nbp,
+  (forall x y, s x = s y -> x = y) -> wf_cgr c = true ->
+  cgr_linear_fingerprint h (rename_cgr s c) lo hi len nab nbp = cgr_linear_fingerprint h c lo hi len nab nbp /\
+  cgr_morgan_fingerprint h (rename_cgr s c) lo hi len nab = cgr_morgan_fingerprint h c lo hi len nab.
+Proof. exact (fun h s c lo hi len nab nbp Hi Hw =>
+  conj (cgr_linear_fingerprint_rename h s c lo hi len nab nbp Hi Hw) (cgr_morgan_fingerprint_rename h s c lo hi len nab Hi)). Qed.
+Print Assumptions C17_cgr_fingerprints_rename.
+
+Theorem C17_cgr_fingerprints_reordered : forall c c', wf_cgr c = true -> wf_cgr c' = true -> cgr_reordered c c' ->
+  forall (h : list Z -> Z) lo hi len nab nbp,
+  cgr_linear_fingerprint h c lo hi len nab nbp = cgr_linear_fingerprint h c' lo hi len nab nbp /\
+  cgr_morgan_fingerprint h c lo hi len nab = cgr_morgan_fingerprint h c' lo hi len nab.
+Proof. exact cgr_fingerprints_reordered. Qed.
+Print Assumptions C17_cgr_fingerprints_reordered.
+
+(* non-vacuity / the numpy model: wrapping, IndexError, chython's array of 2-propanol, the two error exits *)
+Theorem C17_np_set_ones_examples :
+  np_set_ones 4 [1; 3] = Ok [0; 1; 0; 1] /\ np_set_ones 4 [-1] = Ok [0; 0; 0; 1] /\
+  np_set_ones 4 [4] = Err IndexError /\ np_set_ones 4 [-5] = Err IndexError /\
+  linear_fingerprint hash_ztuple ex_mol 1 2 8 1 4 = Ok [1; 1; 0; 1; 1; 0; 0; 1] /\
+  linear_fingerprint hash_ztuple ex_mol 1 2 0 1 4 = Err ValueError /\
+  morgan_fingerprint hash_ztuple ex_mol 0 2 8 1 = Err OtherError.
+Proof. exact np_set_ones_examples. Qed.
+Print Assumptions C17_np_set_ones_examples.
+
+(* ==================================================================================================== *)
+(* SECOND ROUND (2): morgan_hash_smiles / morgan_smiles_hash (Model.MorganSmiles).  `ball g a r` models the atom set of
+   augmented_substructure((a,), deep=r); the parameter cs g S stands for format(self.substructure(S), 'A'): substructure
+   construction + canonical SMILES (the subject of C01), not modelled. *)
+
+(* the atom set of augmented_substructure: the atoms reachable by at most r bonds *)
+Theorem C17_ball_within : forall g a r x, In x (ball g a r) <-> within g a r x.
+Proof. exact ball_within. Qed.
+Print Assumptions C17_ball_within.
+
+(* AssertionError exactly for min < 1 or max < min; otherwise key k holds the canonical string of the radius-r neighbourhood
+   of every atom whose identifier after r rounds is k, r = min-1 .. max-1 *)
+Theorem C17_morgan_hash_smiles_get : forall (h : list Z -> Z) (cs : mol -> list Z -> string) g lo hi,
+  match morgan_hash_smiles h cs g lo hi with
+  | Err e => e = OtherError /\ (lo < 1 \/ hi < lo)
+  | Ok d => 1 <= lo <= hi /\ forall k str,
+      In str (sget d k) <->
+      exists r a, (Z.to_nat (lo - 1) <= r < Z.to_nat hi)%nat /\ In (a, k) (morgan_level h g r) /\ str = cs g (ball g a r)
+  end.
+Proof. exact morgan_hash_smiles_get. Qed.
+Print Assumptions C17_morgan_hash_smiles_get.
+
+(* morgan_smiles_hash is the transposed dictionary *)
+Theorem C17_smiles_hash_of_get : forall d s k, In k (strget (smiles_hash_of d) s) <-> exists vs, In (k, vs) d /\ In s vs.
+Proof. exact smiles_hash_of_get. Qed.
+Print Assumptions C17_smiles_hash_of_get.
+
+(* IF the canonical string of a substructure does not depend on the atom numbering (the property C01 is about), THEN
+   morgan_hash_smiles and morgan_smiles_hash of a renumbered molecule are the SAME dictionaries, for every hash function.
+   The known finding on morgan_hash_smiles is therefore exactly the canonical-string gap. *)
+Theorem C17_cs_numbering_independent_unfold : forall cs, cs_numbering_independent cs <->
+  forall (s : Z -> Z), (forall x y, s x = s y -> x = y) -> forall g S S',
+    (forall x, In x S' <-> In x (map s S)) -> cs (rename_mol s g) S' = cs g S.
+Proof. exact (fun cs => iff_refl _). Qed.
+Print Assumptions C17_cs_numbering_independent_unfold.
+
+Theorem C17_morgan_hash_smiles_rename : forall (s : Z -> Z), (forall x y, s x = s y -> x = y) ->
+  forall (h : list Z -> Z) (cs : mol -> list Z -> string), cs_numbering_independent cs -> forall g lo hi,
+  morgan_hash_smiles h cs (rename_mol s g) lo hi = morgan_hash_smiles h cs g lo hi.
+Proof. exact morgan_hash_smiles_rename. Qed.
+Print Assumptions C17_morgan_hash_smiles_rename.
+
+Theorem C17_morgan_smiles_hash_rename : forall (s : Z -> Z), (forall x y, s x = s y -> x = y) ->
+  forall (h : list Z -> Z) (cs : mol -> list Z -> string), cs_numbering_independent cs -> forall g lo hi,
+  morgan_smiles_hash h cs (rename_mol s g) lo hi = morgan_smiles_hash h cs g lo hi.
+Proof. exact morgan_smiles_hash_rename. Qed.
+Print Assumptions C17_morgan_smiles_hash_rename.
+
+(* the witness of the known finding (cis-1,3-cyclobutanediol, renumbering 3>4>5>6>3): with the canonical strings observed on
+   chython (cs_obs) the model returns chython's two dictionaries: same keys, different strings; cs_obs is NOT numbering
+   independent (the hypothesis fails exactly there); the hypothesis is satisfiable *)
+Theorem C17_morgan_hash_smiles_witness :
+  rename_mol cb_s cb_molA = cb_molB /\ wf_mol cb_molA = true /\
+  morgan_hash_smiles hash_ztuple cs_obs cb_molA 1 3 = Ok cb_dA /\
+  morgan_hash_smiles hash_ztuple cs_obs cb_molB 1 3 = Ok cb_dB /\
+  cb_dA <> cb_dB /\ map fst cb_dA = map fst cb_dB /\
+  ~ cs_numbering_independent cs_obs /\
+  cs_numbering_independent (fun _ _ => "*"%string).
+Proof. exact morgan_hash_smiles_witness. Qed.
+Print Assumptions C17_morgan_hash_smiles_witness.
